@@ -51,9 +51,19 @@ def gen_query(coll, r, db):
     conds = []
     for _ in range(r.randint(0, 3)):
         exprs = []
+        if r.random() < 0.25:
+            # the same column compared with several values (one of them may be null) in one AND / OR group
+            k = r.choice(fields)
+            vals = [r.choice([s[k] for s in sample] + ['nomatch' if k not in NUM[coll] else 7]) if sample else ('x' if k not in NUM[coll] else 1) for _ in range(r.randint(2, 3))]
+            if k in NULLABLE[coll]:
+                vals[r.randrange(len(vals))] = None
+            conds.append(dict(type=r.choice(['or', 'or', 'and']), exprs=[dict(op=r.choice(['eq', 'eq', 'eq', 'ne']) , key=k, value=v) for v in vals]))
+            continue
         for _ in range(r.randint(1, 3)):
             k = r.choice(fields)
-            if k in NULLABLE[coll]:
+            if k in NULLABLE[coll] and r.random() < 0.4 and sample:
+                op, v = r.choice(['eq', 'ne']), r.choice([s[k] for s in sample if s[k] is not None] or [None])
+            elif k in NULLABLE[coll]:
                 op, v = r.choice(['eq', 'ne']), None
             elif k in NUM[coll]:
                 op = r.choice(['eq', 'ne', 'lt', 'le', 'gt', 'ge'])
